@@ -1,5 +1,5 @@
 \* Simulation over the full alphabet (two sessions, deletes, configs 10 s / 900 s /
-\* unset, invalid config, PANIC, raft-internal entries), logs up to 14 entries.
+\* unset, MaxSessions 1 / 2 with refused CreateSessions, invalid config, PANIC, raft-internal entries), logs up to 14 entries.
 \* Used with -simulate file=...; the check reads the history variable of each trace.
 SPECIFICATION Spec
 CONSTANTS
